@@ -371,6 +371,26 @@ class HalfCopyable:
     return f'<HalfCopyable {self.__dict__.get("tok")}>'
 
 
+class RHSFailure(Exception):
+  pass
+
+
+class FailingList(list):
+  """A sequence with correct len() and indexing whose ITERATION raises after
+  `ok` items (user code failing part-way through an assignment's right-hand
+  side)."""
+
+  def __init__(self, items, ok):
+    super().__init__(items)
+    self._ok = ok
+
+  def __iter__(self):
+    for i in range(len(self)):
+      if i >= self._ok:
+        raise RHSFailure(f'right-hand side fails after {self._ok} item(s)')
+      yield self[i]
+
+
 class ConstObj:
   """An opaque constant registered with register_constant (by identity)."""
 
